@@ -190,11 +190,24 @@ def model_read_view(rt, root=True):
     return {"n": rt["n"], "d": d, "f": sorted(rt["f"]), "k": [model_read_view(k, False) for k in rt["k"]]}
 
 
+def real_read_species(s):
+    """The species tree of the package's own from_dict() (a separate `Tree(s, format=1)` call in the source)."""
+    with contextlib.redirect_stderr(io.StringIO()):
+        x = ReconciliationInput.from_dict(
+            {"object_tree": "o;", "species_tree": s, "leaf_object_species": {}, "costs": {}})
+    return x.species_lca.tree
+
+
 def guarded_read(s):
-    try:
-        return {"ok": describe_read(real_read(s))}
-    except Exception as e:  # noqa
-        return {"err": type(e).__name__}
+    """Outcome of reading `s` as the object tree; when reading it as the SPECIES tree gives another outcome (the two
+    trees are parsed by two calls), the pair is returned, which equals no model answer."""
+    outs = []
+    for reader in (real_read, real_read_species):
+        try:
+            outs.append({"ok": describe_read(reader(s))})
+        except Exception as e:  # noqa
+            outs.append({"err": type(e).__name__})
+    return outs[0] if outs[0] == outs[1] else {"object_tree": outs[0], "species_tree": outs[1]}
 
 
 def names_a_file(s):
@@ -338,7 +351,7 @@ def check_strings(ctx, res, strings):
         impl = guarded_read(s)
         case = {"origin": "newick:" + origin, "s": s}
         res.case(case, nontrivial="ok" in impl and bool(impl["ok"]["k"]))
-        res.dist[f"newick/{origin}/" + ("ok" if "ok" in impl else impl["err"])] += 1
+        res.dist[f"newick/{origin}/" + ("ok" if "ok" in impl else impl.get("err", "object and species tree differ"))] += 1
         reads.append((case, s, impl))
     compare_reads(ctx, res, reads)
 
